@@ -35,12 +35,15 @@ open OFV OFV.Go OFV.Model
 
 /-! ### size functions (regenerated from the Go source, `OFV/Gen/Pure.lean`) -/
 
-/-- an IPv6 option reports `Length + 2` bytes, computed without 16-bit wrap-around — hence at least 2: the option loop of the
-    hop-by-hop decoder always moves forward -/
-theorem C08_Option_Len (o : Gen.protocol.Option) : (Gen.protocol.Option.Len o).toNat = o.Length.toNat + 2 := by
+/-- an IPv6 option reports one byte when it is Pad1 (type 0), otherwise `Length + 2` bytes, computed without 16-bit
+    wrap-around — hence at least 1: the option loop of the hop-by-hop decoder always moves forward -/
+theorem C08_Option_Len (o : Gen.protocol.Option) :
+    (Gen.protocol.Option.Len o).toNat = if o.Type_ = 0 then 1 else o.Length.toNat + 2 := by
   unfold Gen.protocol.Option.Len
   have := o.Length.toNat_lt
-  simp [UInt16.toNat_add]; omega
+  split
+  · rfl
+  · simp [UInt16.toNat_add]; omega
 
 /-- a hop-by-hop header reports exactly `8 * (HEL + 1)` bytes: the sum is taken in 16 bits, so `HEL = 255` gives 2048 and
     not 0 (no 8-bit wrap-around) -/
@@ -71,11 +74,15 @@ theorem C08_IGMPv3GroupRecord_Len (p : Gen.protocol.IGMPv3GroupRecord) :
   have := p.AuxDataLen.toNat_lt
   simp [UInt16.toNat_add, UInt16.toNat_mul]; omega
 
-/-- consequence used by the loops: a hop-by-hop header is at least 8 bytes, an option at least 2 -/
+/-- consequence used by the loops: a hop-by-hop header is at least 8 bytes, an option at least 1 (Pad1), and at least 2
+    when it is not Pad1 -/
 theorem C08_sizes_positive (h : Gen.protocol.HopByHopHeader) (r : Gen.protocol.RoutingHeader) (o : Gen.protocol.Option) :
     8 ≤ (Gen.protocol.HopByHopHeader.Len h).toNat ∧ 8 ≤ (Gen.protocol.RoutingHeader.Len r).toNat ∧
-    2 ≤ (Gen.protocol.Option.Len o).toNat := by
-  rw [C08_HopByHop_Len, C08_Routing_Len, C08_Option_Len]; omega
+    1 ≤ (Gen.protocol.Option.Len o).toNat ∧ (o.Type_ ≠ 0 → 2 ≤ (Gen.protocol.Option.Len o).toNat) := by
+  rw [C08_HopByHop_Len, C08_Routing_Len, C08_Option_Len]
+  refine ⟨by omega, by omega, ?_, ?_⟩
+  · split <;> omega
+  · intro h0; rw [if_neg h0]; omega
 
 /-! ### leaf decoders -/
 
@@ -204,24 +211,34 @@ theorem C08_Fragment_total (recv : V) (data : Slice) (hwf : data.WF) : Res.Total
     simp only [h0, h1, h2, h4, Res.bind_ok]
     exact Or.inl ⟨_, rfl⟩
 
-/-- IPv6 option decoder: an error, or a `p.Option` whose `Length + 2` bytes lie inside the data -/
+/-- IPv6 option decoder: an error, or a `p.Option` whose declared size (`Option.Len`: 1 byte for Pad1, `Length + 2`
+    otherwise) is at least 1 and lies inside the data -/
 theorem C08_Option_shape (recv : V) (data : Slice) (hwf : data.WF) :
     POption.unmarshal recv data = .err ∨
     ∃ v, POption.unmarshal recv data = .ok v ∧
-      ∃ ty ln d, v = .obj "p.Option" [V.u8 ty, V.u8 ln, .bytes d] ∧ ln.toNat + 2 ≤ data.len := by
+      ∃ ty ln d, v = .obj "p.Option" [V.u8 ty, V.u8 ln, .bytes d] ∧
+        1 ≤ (Gen.protocol.Option.Len { Type_ := ty, Length := ln }).toNat ∧
+        (Gen.protocol.Option.Len { Type_ := ty, Length := ln }).toNat ≤ data.len := by
   unfold POption.unmarshal
   split
-  · exact Or.inl rfl
-  · rename_i hlen
-    obtain ⟨x0, h0⟩ := Slice.byteAt_ok data hwf 0 (by omega)
-    obtain ⟨x1, h1⟩ := Slice.byteAt_ok data hwf 1 (by omega)
-    simp only [h0, h1, Res.bind_ok]
-    split
+  · rename_i hpad
+    exact Or.inr ⟨_, rfl, 0, 0, [], rfl, by decide, by
+      have : (Gen.protocol.Option.Len { Type_ := 0, Length := 0 }).toNat = 1 := by decide
+      omega⟩
+  · split
     · exact Or.inl rfl
-    · rename_i hl2
-      obtain ⟨s, hs, _⟩ := Slice.sliceR_ok_len data hwf 2 (2 + x1.toNat) (by omega) (by omega)
-      simp only [hs, Res.bind_ok]
-      exact Or.inr ⟨_, rfl, _, _, _, rfl, by omega⟩
+    · rename_i hlen
+      obtain ⟨x0, h0⟩ := Slice.byteAt_ok data hwf 0 (by omega)
+      obtain ⟨x1, h1⟩ := Slice.byteAt_ok data hwf 1 (by omega)
+      simp only [h0, h1, Res.bind_ok]
+      split
+      · exact Or.inl rfl
+      · rename_i hl2
+        obtain ⟨s, hs, _⟩ := Slice.sliceR_ok_len data hwf 2 (2 + x1.toNat) (by omega) (by omega)
+        simp only [hs, Res.bind_ok]
+        refine Or.inr ⟨_, rfl, x0, x1, _, rfl, ?_, ?_⟩
+        · rw [C08_Option_Len]; split <;> omega
+        · rw [C08_Option_Len]; dsimp only; split <;> omega
 
 /-- IPv6 option decoder: total -/
 theorem C08_Option_total (recv : V) (data : Slice) (hwf : data.WF) : Res.Total (POption.unmarshal recv data) :=
@@ -257,16 +274,18 @@ theorem C08_Routing_total (recv : V) (data : Slice) (hwf : data.WF) : Res.Total 
 
 /-! ### loops: hop-by-hop options, DHCP options, IGMPv3 -/
 
-/-- one iteration of the hop-by-hop option loop started inside the data: an error, or the offset grows by at least 2 -/
+/-- one iteration of the hop-by-hop option loop started inside the data: an error, or the offset grows by at least 1
+    (a Pad1 option is a single byte; every other option takes at least 2) -/
 theorem C08_HopByHop_body (data : Slice) (hwf : data.WF) (s : PHopByHop.St) (hn : s.n ≤ data.len) :
-    hbhBody data s = .err ∨ ∃ s', hbhBody data s = .ok s' ∧ s.n + 2 ≤ s'.n := by
+    hbhBody data s = .err ∨ ∃ s', hbhBody data s = .ok s' ∧ s.n + 1 ≤ s'.n := by
   unfold hbhBody
   obtain ⟨d, hd, hdwf, _⟩ := Slice.fromR_ok_len data hwf s.n hn
-  rcases C08_Option_shape POption.zero d hdwf with h | ⟨v, hv, ty, ln, dd, rfl, _⟩
+  rcases C08_Option_shape POption.zero d hdwf with h | ⟨v, hv, ty, ln, dd, rfl, hpos, _⟩
   · simp only [hd, h, Res.bind_ok, Res.bind_err]; exact Or.inl trivial
   · simp only [hd, hv, Res.bind_ok, POption.len, V.u8]
     refine Or.inr ⟨_, rfl, ?_⟩
-    simp only [C08_Option_Len]
+    have e8 : ∀ x : UInt8, n8 x.toNat = x := fun x => by simp [n8]
+    simp only [e8]
     omega
 
 /-- IPv6 hop-by-hop header decoder (option loop via `goLoop`): an error, or a `p.HopByHopHeader` whose `8·(HEL+1)` bytes lie
